@@ -320,29 +320,36 @@ def _cell(mat, rho):
     return CellMCNP(mat, rho, None, 1.0, 0, None, (), None, [])
 
 
+_RHO_SETS = [('-1.0', '-2.5', '-1.0'), ('-0.9982071', '-0.9982074', '-0.9982071'), ('1e-10', '1.0000001e-10', '1e-10'),
+             ('-1.0', '-1.0', '-1.0'), ('123456.7', '123456.8', '123456.7')]
+
+
 @contract(constructGeomCompT4, props=['C09', 'C08'], name='ConstructGeomCompT4.constructGeomCompT4', status='B')
 class _GeomComp:
     """Every non-virtual volume appears exactly once, under the name material_density of the cell that owns it: the
     lowest-level filler recorded first in its provenance, else the cell of the same number; virtual volumes skipped;
-    void cells go to the composition named by the bare material number 0."""
-    scope = '4 volumes x (fictive or not) x (own cell | filler provenance) over 4 cells incl. void and equal materials'
+    void cells go to the composition named by the bare material number 0; cells of one material whose (normalised)
+    densities differ numerically -- however little -- never share a composition."""
+    scope = ('4 volumes x (fictive or not) x (own cell | filler provenance) over 4 cells incl. void and equal materials x '
+             '5 density triples (equal, clearly different, different in the 7th significant digit only)')
 
     def bounded(tier):
-        for flags in itertools.product((True, False), repeat=3):
-            for prov in itertools.product((None, 41, 42), repeat=3):
-                yield {'flags': flags, 'prov': prov}
+        for rhos in _RHO_SETS:
+            for flags in itertools.product((True, False), repeat=3):
+                for prov in itertools.product((None, 41, 42), repeat=3):
+                    yield {'flags': flags, 'prov': prov, 'rhos': rhos}
 
-    def call(flags, prov):
-        cells = {1: _cell('3', '-1.0'), 2: _cell('3', '-2.5'), 3: _cell('0', None), 41: _cell('7', '0.05'),
-                 42: _cell('3', '-1.0')}
+    def call(flags, prov, rhos):
+        cells = {1: _cell('3', rhos[0]), 2: _cell('3', rhos[1]), 3: _cell('0', None), 41: _cell('7', '0.05'),
+                 42: _cell('3', rhos[2])}
         vols = OrderedDict()
         for k, (fl, pr) in enumerate(zip(flags, prov), start=1):
             vols[k] = VolumeT4([k], [], idorigin=[(pr, 9), (pr, 1)] if pr else None, fictive=fl)
         res = constructGeomCompT4(vols, cells)
         return {name: (g.volumeNumberMaterial, g.listVolumeId) for name, g in res.items()}
 
-    def ensures(result, flags, prov):
-        names = {1: '3_-1.0', 2: '3_-2.5', 3: '0', 41: '7_0.05', 42: '3_-1.0'}
+    def ensures(result, flags, prov, rhos):
+        names = {1: '3_' + rhos[0], 2: '3_' + rhos[1], 3: '0', 41: '7_0.05', 42: '3_' + rhos[2]}
         want = OrderedDict()
         for k, (fl, pr) in enumerate(zip(flags, prov), start=1):
             if fl:
